@@ -443,16 +443,16 @@ class Path(typing.Generic[H]):
         with self.host.run(
             "tee", self, linux.RedirStdout(self.host.fsroot / "/dev/null")
         ) as ch:
-            with ch.with_death_string("tee: ", PathWriteDeathStringException):
-                try:
-                    ch.send(byte_data, read_back=True)
+            # No "tee: " death string here (unlike in write_bytes()): the tty
+            # echoes the data, so text which contains that string itself would
+            # be mistaken for an error message of `tee`.  A failing `tee` still
+            # consumes its input and is reported by terminate0() below.
+            ch.send(byte_data, read_back=True)
 
-                    # Send ^D twice if the file does not end with a line ending.  This
-                    # is necessary to make `tee` notice the EOF correctly.
-                    if not (byte_data == b"" or byte_data[-1:] in [b"\n", b"\r"]):
-                        ch.sendcontrol("D")
-                except PathWriteDeathStringException:
-                    pass
+            # Send ^D twice if the file does not end with a line ending.  This
+            # is necessary to make `tee` notice the EOF correctly.
+            if not (byte_data == b"" or byte_data[-1:] in [b"\n", b"\r"]):
+                ch.sendcontrol("D")
 
             ch.sendcontrol("D")
             ch.terminate0()
